@@ -446,13 +446,19 @@ def classify_c02(rd, text, out):
     if cds:
         if any("\n" in t[4] for t in cds):
             return "cdata:body-spans-lines"
+        if any(t[3] or (t[5] and t[6]) for t in cds):
+            return "cdata:blanks-between-tag-and-section"
         for line in text.split("\n"):
             if line.count("<![CDATA[") >= 2:
                 return "cdata:two-sections-on-one-line"
-        if any(t[3] or (t[5] and t[6]) for t in cds):
-            return "cdata:blanks-between-tag-and-section"
         return "cdata:other"
     return "tree-differs"
+
+
+def uncdata(rd):
+    if rd[0] == "agg":
+        return ("agg", rd[1], rd[2], [uncdata(c) for c in rd[3]], rd[4])
+    return rd[:2] + (False,) + rd[3:]
 
 
 def load_corpus(prop):
@@ -498,6 +504,11 @@ def run(rep, tier, rng):
         rep.count(s, nontrivial=(out[0] == "ok"), kind=kind)
         if out != ("ok", want):
             key = classify_c02(rd, s, out)
+            if key.startswith("cdata:"):
+                # is CDATA wrapping the cause at all?  the same rendering with every data element written plainly
+                plain = uncdata(rd)
+                if impl_parse(P, render(plain, ws0)) != ("ok", want):
+                    key = "tree-differs"
             fail(key, "TreeBuilder on %r -> %r; the document's tree is %r" % (s[:200], out if out[0] != "ok" else "a different tree", want if len(s) < 200 else "..."),
                  text=s, expected=want, observed=out)
         return s, out
